@@ -14,6 +14,7 @@ def check(chk, thorough=False):
     chk.run('C14.a', 'R-FLOW', 'negotiated keepalive is the min of both SESS_INIT values; timers are armed only for a positive time, in milliseconds, after stopping the old one', lambda ob: c14a(tree, ob), floor=5)
     chk.run('C14.b', 'R-FLOW', 'reported session parameters are the peer-announced node id and MRUs and the negotiated keepalive', lambda ob: c14b(tree, ob), floor=4)
     chk.run('C14.c', 'R-CLAMP', 'send segment size never exceeds the peer segment MRU, also while adapting (= C04.e)', lambda ob: c04e(tree, ob), floor=2)
+    chk.run('C14.e', 'R-TRUTH', 'the timers run on the configured values: the configuration loader hands every setting on as read, an idle time is derived only when none was given (is None, not falsy)', lambda ob: __import__('sa.props.common', fromlist=['config_verbatim']).config_verbatim(tree, ob, 'tcpcl/config.py'), floor=2)
     chk.run('C14.d', 'R-PAIR', 'every send restarts both timers, every receive restarts the idle timer; timeouts send KEEPALIVE / start idle termination; close stops both', lambda ob: c14d(tree, ob), floor=8)
     chk.run('C14.e', 'R-ESCAPE', 'an endpoint already terminating whose idle timer fires closes instead of raising (= C09.e)', lambda ob: c09e(tree, ob, user_entry=False), floor=3)
 
@@ -113,6 +114,12 @@ def c14b(tree, ob):
                 okconv = False  # too narrow for the 64-bit MRUs
             if not okconv:
                 bad.append(n)
+    # every answer is made from the record as it is now: no return that bypasses the loop (a reply kept from an earlier
+    # call, e.g. one made before the session was established, is the state of another moment)
+    stale = [r for r in walk_local(fg.func) if isinstance(r, ast.Return) and not fg.cfg.must_pass(fg.cfg.entry, fg.node(r), {fg.node(lp.iter)}, include_exc=False)[0]]
+    for r in stale:
+        ob.violate(SESS, fg.qual, src(r)[:70] + ' (bypasses the loop over self._sess_parameters)', 'the reported session parameters are not read from the current record: a caller that asked once before the '
+                   'session was established keeps getting the empty answer', r)
     if bad:
         ob.violate(SESS, fg.qual, src(bad[0]), 'a negotiated parameter is altered on its way to the caller (the MRUs go up to 2^64-1: the peer transfer MRU is reported wrongly in every default session)', bad[0])
     else:
